@@ -69,6 +69,13 @@ class P(Prop):
             sp = rng.sample(sp_all, rng.randint(1, len(sp_all)))
         if ep_all and rng.random() < 0.5:
             ep = rng.sample(ep_all, rng.randint(1, len(ep_all)))
+        # an explicitly EMPTY choice is a choice (tie nothing / compare nothing), not a request for the default (K51)
+        if rng.random() < 0.08:
+            sp = []
+            kind += "+sp-empty"
+        if rng.random() < 0.05:
+            ep = []
+            kind += "+ep-empty"
         return c0, c1, sp, ep, kind
 
     def correspond(self, n):
@@ -99,8 +106,8 @@ class P(Prop):
         cc1 = c1 if c1 is not None else c0
         o, m = call(cg.tx.miter, c0, c1, sp, ep)
         self.search_cases += 1
-        sp_eff = list(sp) if sp else sorted(c0.startpoints() & cc1.startpoints())
-        ep_eff = list(ep) if ep else sorted(c0.endpoints() & cc1.endpoints())
+        sp_eff = list(sp) if sp is not None else sorted(c0.startpoints() & cc1.startpoints())
+        ep_eff = list(ep) if ep is not None else sorted(c0.endpoints() & cc1.endpoints())
         if o != "ok":
             # legitimate rejections: a name clash the code checks for
             clash = any(n in ("sat",) or n.startswith(("c0_", "c1_", "dif_")) for n in sp_eff)
@@ -111,6 +118,9 @@ class P(Prop):
             return
         if not ep_eff:
             self.stats.bump("no-endpoints")
+            if m.inputs() != set(sp_eff):
+                self.fail("search", "miter-inputs", f"inputs {sorted(m.inputs())} != tied startpoints {sorted(sp_eff)}", case)
+                return
             o2, res = call(cg.sat.solve, m, {"sat": True})
             if "sat" in free_nodes(m) or o2 != "ok" or res is not False:
                 self.fail("search", "miter-no-endpoints-sat-free",
